@@ -461,11 +461,19 @@ func ruleFunnelOnce(r *Run) {
 	if rf := r.modelFunc("websocket.(*handler).startReceiving"); rf != nil {
 		rpaths := r.Paths(rf)
 		nRecv := 0
+		recvFld := r.P.LookupField(pkgWS, "handler", "receiver")
 		for pi := range rpaths {
 			path := &rpaths[pi]
 			r.at(path)
 			for i, ev := range path.Events {
-				if ev.Kind != EvCall || ev.Call == nil || r.P.Canon(ev.Fn, ev.Call.Fun) != "recv.receiver" {
+				if ev.Kind != EvCall || ev.Call == nil {
+					continue
+				}
+				se, isSel := ast.Unparen(ev.Call.Fun).(*ast.SelectorExpr)
+				if !isSel || recvFld == nil {
+					continue
+				}
+				if fv := r.P.selField(ev.Fn.Info(), se); fv != recvFld && (fv == nil || r.P.FieldName(fv) != "receiver") {
 					continue
 				}
 				nRecv++
